@@ -633,7 +633,10 @@ var c16TrustedConfigs = []string{
 	"::/0, 0.0.0.0/0", "::", "0.0.0.0", "255.255.255.255", "ffff:ffff:ffff:ffff:ffff:ffff:ffff:ffff", "2001:db8::1/0", "1.2.3.4/0",
 	// blanks that strings.TrimSpace removes (and three that it does not)
 	"\t10.0.0.7\t,\u00a02001:db8:0:1::5\u00a0", "10.0.0.7 \t, \u200310.0.0.8\u2028,\u3000192.168.0.0/16\u0085", "\v::1\f,\r127.0.0.1\n", "10.0.0.7,\u200b10.0.0.8", "\ufeff10.0.0.7", "10.0.0.7\u180e",
-	// refused configurations
+}
+
+// configurations ParseAllowedIps refuses (and two it accepts that look as if it should not)
+var c16RefusedConfigs = []string{
 	"10.0.0.1/33", "2001:db8::/129", "10.0.0.1/", "/8", "10.0.0.1/8/8", "10.0.0.1, nonsense", "fe80::1%eth0", "10.0.0.1/08", "10.0.0.1/+8", "[::1]", "1.2.3.4:80",
 }
 
@@ -999,7 +1002,12 @@ func c16GenCase(r *vrng, id int, hubConfigs []string, sink *caseSink) *c16Case {
 	nops := 1 + r.intn(4)
 	// one configuration per case, used by most of its ops
 	trustedCfg := pick(r, c16TrustedConfigs)
-	if r.chance(25) {
+	if r.chance(4) {
+		trustedCfg = pick(r, c16RefusedConfigs)
+		if r.chance(50) {
+			trustedCfg = pick(r, c16TrustedConfigs) + "," + trustedCfg
+		}
+	} else if r.chance(25) {
 		trustedCfg = c16RandNet(r)
 		if r.chance(40) {
 			trustedCfg += ", " + c16RandNet(r)
@@ -1176,7 +1184,7 @@ func c16Directed() []*c16Case {
 			c16Op{K: "stats", Trusted: s("fd00::1,::1"), Allow: "127.0.0.1, 2001:db8::100", Endpoint: ep, Peer: "[fd00::1]:1234", XR: l("2001:db8::99")})
 	}
 	// every fixed configuration text: refused, or the list it means
-	for _, cfg := range c16TrustedConfigs {
+	for _, cfg := range append(append([]string{}, c16TrustedConfigs...), c16RefusedConfigs...) {
 		add(c16Op{K: "parse", Trusted: s(cfg)})
 	}
 	return cs
